@@ -25,7 +25,6 @@ func FuncBuilder(env *Zlisp, name string,
 	returnsLoc := 2
 	bodyLoc := 3
 	isAnon := false
-	_ = isAnon
 
 	var symN *SexpSymbol
 	switch b := args[0].(type) {
@@ -224,9 +223,14 @@ func FuncBuilder(env *Zlisp, name string,
 	invok, err := env.datastack.PopExpr()
 	panicOn(err) // we just pushed in the clos.Execute(), so this should always be err == nil
 	env.pc = notePc
-	err = env.LexicalBindSymbol(symN, invok)
-	if err != nil {
-		return SexpNull, fmt.Errorf("internal error: could not bind symN:'%s' into env: %v", symN.name, err)
+	if !isAnon {
+		// (an anonymous function is only a value: binding it under its
+		// generated name, which no script can spell, added one name to
+		// the current scope for every evaluation of the form)
+		err = env.LexicalBindSymbol(symN, invok)
+		if err != nil {
+			return SexpNull, fmt.Errorf("internal error: could not bind symN:'%s' into env: %v", symN.name, err)
+		}
 	}
 
 	if len(body) > 0 {
